@@ -1,3 +1,129 @@
+import LibconfigModel.TreeSpec
 import LibconfigModel.WF
+import LibconfigModel.Step
+import LibconfigModel.Proofs.C05
+/-
+  C05 — API operations behave as an ordered tree: append, exact removal, no side effects.
+  Statements only; helper lemmas live in LibconfigModel/Proofs/C05.lean.
+-/
 namespace Libconfig.C05
+
+/-! ### refinement of the two operations whose mechanism differs from their meaning -/
+
+/-- `config_setting_remove` (lookup by path, then a second search by the last path
+component in the target's parent) deletes exactly the setting the path addresses. -/
+theorem C05_remove_refines (dtor : Bool) (parent : Node) (h : parent.WF) (name : Option Bytes) :
+    parent.remove dtor name = Spec.remove dtor parent name :=
+  C05P.remove_refines dtor parent h name
+
+/-- `config_setting_add` appends at the end, replacing an existing member only when
+overrides are enabled. -/
+theorem C05_add_refines (dtor overrides : Bool) (parent : Node) (h : parent.WF)
+    (name : Option Bytes) (ty : Int) :
+    parent.add dtor overrides name ty = Spec.add dtor overrides parent name ty := by
+  have _ := h  -- well-formedness is not needed for this direction
+  exact C05P.add_refines dtor overrides parent name ty
+
+/-- `config_setting_remove_elem` deletes exactly the addressed child and keeps the order
+of the others. -/
+theorem C05_removeElem_spec (dtor : Bool) (parent : Node) (idx : Nat) :
+    parent.removeElem dtor idx =
+      if parent.isAggregate then
+        (parent.kids[idx]?).map fun victim =>
+          ({ parent with kids := parent.kids.eraseIdx idx }, destroyLog dtor victim)
+      else none :=
+  C05P.removeElem_spec dtor parent idx
+
+/-! ### failure atomicity -/
+
+/-- an addition, removal or assignment reported failure -/
+def failed : Res → Bool
+  | .flag false => true
+  | .ptr none => true
+  | .badOp => true
+  | _ => false
+
+def isRead : Op → Bool
+  | .read _ => true
+  | .writeFile _ => true     -- file I/O: a failing write records the I/O error
+  | _ => false
+
+/-- Every operation other than the file-I/O calls (reads, and `config_write_file`, whose
+failure is recorded in the error fields) that reports failure leaves the whole state
+(configuration and file system) unchanged. -/
+theorem C05_failure_atomic (s : State) (op : Op) (hop : isRead op = false)
+    (hf : failed (step s op).2.res = true) : (step s op).1 = s :=
+  C05P.failure_atomic s op hop hf
+
+/-! ### assignments change only the addressed setting -/
+
+/-- the value-assigning operations on the setting at `p` -/
+def assignsAt (op : Op) (p : Path) : Bool :=
+  match op with
+  | .setInt q _ | .setInt64 q _ | .setFloat q _ | .setBool q _ | .setString q _
+  | .setFormat q _ | .setHook q _ => q == p
+  | _ => false
+
+/-- An assignment to the setting at `p` leaves every setting that is neither `p` itself,
+nor an ancestor, nor a descendant of `p` exactly as it was … -/
+theorem C05_frame_disjoint (s : State) (op : Op) (p q : Path) (m : Node) (ha : assignsAt op p = true)
+    (hq : s.cfg.root.get? q = some m) (h1 : ¬ p <+: q) (h2 : ¬ q <+: p) :
+    (step s op).1.cfg.root.get? q = some m :=
+  C05P.frame_disjoint s _ p q m (C05P.step_assign s op p ha) hq h1 h2
+
+/-- … keeps the name, the children and the position of the addressed setting itself, and
+changes nothing else in the configuration object. -/
+theorem C05_frame_self (s : State) (op : Op) (p : Path) (n : Node) (ha : assignsAt op p = true)
+    (hn : s.cfg.root.get? p = some n) :
+    ∃ n', (step s op).1.cfg.root.get? p = some n' ∧ n'.name = n.name ∧ n'.kids = n.kids ∧
+      (step s op).1.cfg = { s.cfg with root := (step s op).1.cfg.root } ∧
+      (step s op).1.world = s.world :=
+  C05P.frame_self s _ p n (C05P.step_assign s op p ha) hn
+
+/-- ancestors keep all their own attributes and the number of their children -/
+theorem C05_frame_ancestor (s : State) (op : Op) (p q : Path) (m : Node) (ha : assignsAt op p = true)
+    (hq : s.cfg.root.get? q = some m) (h : q <+: p) (hne : q ≠ p) :
+    ∃ m', (step s op).1.cfg.root.get? q = some m' ∧ m'.name = m.name ∧ m'.ty = m.ty ∧ m'.fmt = m.fmt ∧
+      m'.ival = m.ival ∧ m'.fval = m.fval ∧ m'.sval = m.sval ∧ m'.hook = m.hook ∧
+      m'.kids.length = m.kids.length :=
+  C05P.frame_ancestor s _ p q m (C05P.step_assign s op p ha) hq h hne
+
+/-! ### clearing and re-reading preserve the configuration's attributes -/
+
+/-- options, include directory, tab width, precision, default format, hooks -/
+def attrs (c : Config) : Nat × Option Bytes × Nat × Nat × Nat × Nat × Bool × Nat :=
+  (c.options, c.includeDir, c.tabWidth, c.floatPrecision, c.defaultFormat, c.hook, c.destructor, c.includeFn)
+
+theorem C05_clear_preserves (s : State) : attrs (step s .clear).1.cfg = attrs s.cfg := rfl
+
+theorem C05_read_preserves (s : State) (src : Source) : attrs (step s (.read src)).1.cfg = attrs s.cfg :=
+  C05P.read_attrs s.world s.cfg src readFuel
+
+/-! ### documented argument conventions -/
+
+/-- a NULL include directory resets it -/
+theorem C05_include_dir_null (s : State) : (step s (.setIncludeDir none)).1.cfg.includeDir = none := rfl
+
+/-- over-large tab widths act as 15 -/
+theorem C05_tab_width (s : State) (w : Nat) : (step s (.setTabWidth w)).1.cfg.tabWidth = min w 15 := by
+  show (if w ≤ 15 then w else 15) = min w 15
+  split <;> omega
+
+/-- a negative element index appends: on success the new element is the last child and the
+previous children are unchanged -/
+theorem C05_negative_index_appends (setter : Node → Option Node) (ty : Nat) (n n' : Node) (idx : Int) (i : Nat)
+    (hidx : idx < 0) (h : n.setElem setter ty idx = some (n', i)) :
+    i = n.kids.length ∧ n'.kids.length = n.kids.length + 1 ∧ n'.kids.take n.kids.length = n.kids :=
+  C05P.negative_index_appends setter ty n n' idx i hidx h
+
+/-! Non-vacuity: removing "b.c" from { a = 1; b = { c = 2; d = 3; } } deletes exactly c -/
+def sample : Node :=
+  { ty := T_GROUP, kids := [
+      { name := some [97], ty := T_INT, ival := 1 },
+      { name := some [98], ty := T_GROUP, kids := [
+          { name := some [99], ty := T_INT, ival := 2 }, { name := some [100], ty := T_INT, ival := 3 }] } ] }
+
+example : (sample.remove false (some [98, 46, 99])).map (fun r => r.1.kids.map fun k => (k.name, k.kids.map (·.name))) =
+    some [(some [97], []), (some [98], [some [100]])] := by decide
+
 end Libconfig.C05
